@@ -239,7 +239,7 @@ func check(r *harness.Run, c redCase) error {
 func main() { harness.Main("C05", "model_checking", run) }
 
 func run(r *harness.Run) {
-	r.Rule("every protected event type + 2 unprotected types x every subset of <= K content keys from the union of all versions' keep-lists plus junk/nested keys (each with a value from a typed menu incl. 2^53-1, null, nested objects/arrays, strings needing escapes) x all 16 room versions; and every subset of 8 extra top-level keys per type; depth 0 / origin_server_ts 0 variants; null / false / 0 / empty string / [] / {} under each of 12 top-level keys. Oracle: value equality with refredact (spec tables), keep-list membership, idempotence, identity fields and hashed event ID (vs refevent) unchanged, PDU.Redact agreement (on a trusted parse, and on an untrusted parse that was co-signed first), all signatures still verify (real VerifyJSON). Non-trivial = distinct case where redaction both kept and removed content.")
+	r.Rule("every protected event type + 2 unprotected types x every subset of <= K content keys from the union of all versions' keep-lists plus junk/nested keys (each with a value from a typed menu incl. 2^53-1, null, nested objects/arrays, strings needing escapes) x all 16 room versions; and every subset of 8 extra top-level keys per type; depth 0 / origin_server_ts 0 variants; every type also on events without a state key; null / false / 0 / empty string / [] / {} under each of 12 top-level keys. Oracle: value equality with refredact (spec tables), keep-list membership, idempotence, identity fields and hashed event ID (vs refevent) unchanged, PDU.Redact agreement (on a trusted parse, and on an untrusted parse that was co-signed first), all signatures still verify (real VerifyJSON). Non-trivial = distinct case where redaction both kept and removed content.")
 	r.Assume("ed25519 / sha256 trusted", "float-valued and >2^53 numbers in content are outside the property's alphabet")
 	r.OnReplay("red", func(raw json.RawMessage) error {
 		var c redCase
@@ -352,6 +352,17 @@ func run(r *harness.Run) {
 					}
 				}
 			}
+		}
+		// the same types on events WITHOUT a state key (a message-like event may carry any type; the algorithm goes by type alone)
+		for _, ss := range subsets {
+			if len(ss) > 1 {
+				continue
+			}
+			c := redCase{Version: j.ver, Type: j.typ, Content: map[string]string{"junk": `1`}, NoSK: true}
+			for _, ki := range ss {
+				c.Content[contentKeys[ki][0]] = contentKeys[ki][1]
+			}
+			report(c, check(r, c))
 		}
 		// extra top-level keys: every subset
 		extras := [][2]string{{"junk", `{"a":1}`}, {"origin", `"a.org"`}, {"membership", `"join"`}, {"prev_state", `[]`}, {"unsigned", `{"age":1}`}, {"age_ts", `5`}, {"redacts", `"$x:a.org"`}, {"outlier", `true`}}
